@@ -131,4 +131,42 @@ Proof.
   - unfold ip_result. destruct (check_ip (d0 :: d')) as [r [| |]]; cbn; auto.
   - destruct (negb (ascii_domain (uscore g) (d0 :: d') [] =? 0)%Z); cbn; auto.
 Qed.
+
+(* address level: whatever mode 5321 lets past its local-part scanner, mode 822 treats identically *)
+Lemma email_5321_in_822 t a l d :
+  split_last AT a = Some (l, d) -> nulfree l -> local M5321 l (AT :: d) = 0%Z ->
+  email idn g tbl (MA M822) t a = email idn g tbl (MA M5321) t a.
+Proof.
+  intros E Hn H. unfold email. destruct a as [|a0 a']; [reflexivity|].
+  rewrite E. destruct d as [|d0 d']; [reflexivity|].
+  destruct (Nat.ltb 64 (length l)); [reflexivity|].
+  cbn [local_of]. rewrite H, (incl_5321_822 l (AT :: d0 :: d') (AT :: d0 :: d') Hn H). reflexivity.
+Qed.
+
+(* a result carrying a form flag comes from a local part the scanner passed *)
+Lemma email_local_passed m t a :
+  is_domain (email idn g tbl (MA m) t a) = true \/ is_ipv4 (email idn g tbl (MA m) t a) = true
+   \/ is_ipv6 (email idn g tbl (MA m) t a) = true ->
+  exists l d, split_last AT a = Some (l, d) /\ local m l (AT :: d) = 0%Z.
+Proof.
+  unfold email. destruct a as [|a0 a']; [cbn; intuition discriminate|].
+  destruct (split_last AT (a0 :: a')) as [[l d]|]; [|cbn; intuition discriminate].
+  destruct d as [|d0 d']; [cbn; intuition discriminate|].
+  destruct (Nat.ltb 64 (length l)); [cbn; intuition discriminate|].
+  cbn [local_of]. destruct (local m l (AT :: d0 :: d') =? 0)%Z eqn:Z0; cbn [negb].
+  - intros _. exists l, (d0 :: d'). split; [reflexivity|]. apply Z.eqb_eq; exact Z0.
+  - cbn; intuition discriminate.
+Qed.
+
+Theorem addr_5321_in_822 t a :
+  nulfree a ->
+  (is_domain (email idn g tbl (MA M5321) t a) = true \/ is_ipv4 (email idn g tbl (MA M5321) t a) = true
+   \/ is_ipv6 (email idn g tbl (MA M5321) t a) = true) ->
+  email idn g tbl (MA M822) t a = email idn g tbl (MA M5321) t a.
+Proof.
+  intros Hn Hf. destruct (email_local_passed M5321 t a Hf) as (l & d & E & H).
+  apply (email_5321_in_822 t a l d E); [|exact H].
+  destruct (split_last_spec _ _ _ _ E) as (Ea & _). subst a.
+  unfold nulfree in *. apply Forall_app in Hn. exact (proj1 Hn).
+Qed.
 End Addr.
